@@ -102,7 +102,9 @@ def verify(frame):
         ihl = (ip[0] & 15) * 4
         src, dst, proto, l4 = ip[12:16], ip[16:20], ip[9], ip[ihl:struct.unpack("!H", ip[2:4])[0]]
     else:
-        src, dst, proto, l4 = ip[8:24], ip[24:40], ip[6], ip[40:]
+        src, dst, proto, l4 = ip[8:24], ip[24:40], ip[6], ip[40:40 + struct.unpack("!H", ip[4:6])[0]]
+        while proto in (0, 43, 60):            # hop-by-hop, routing, destination options: the upper-layer protocol follows
+            proto, l4 = l4[0], l4[8 + 8 * l4[1]:]
     if proto == 17 and l4[6:8] == b"\x00\x00":
         return len(src) == 4            # RFC 768: no checksum transmitted (IPv4 only); RFC 8200 8.1: over IPv6 a zero checksum is invalid
     return csum16(pseudo(src, dst, proto, len(l4)) + l4) == 0
@@ -169,20 +171,29 @@ def udp_frames(seed, ipv, target):
 def corrupt(frame, how, rng):
     b = bytearray(frame)
     ip = 14
-    ihl = 20 if b[ip] >> 4 == 4 else 40
-    proto = b[ip + 9] if ihl == 20 else b[ip + 6]
+    if b[ip] >> 4 == 4:
+        ihl = (b[ip] & 15) * 4
+        proto = b[ip + 9]
+        end = ip + struct.unpack("!H", bytes(b[ip + 2:ip + 4]))[0]
+    else:
+        ihl, proto = 40, b[ip + 6]
+        end = ip + 40 + struct.unpack("!H", bytes(b[ip + 4:ip + 6]))[0]
+        while proto in (0, 43, 60):
+            proto, ihl = b[ip + ihl], ihl + 8 + 8 * b[ip + ihl + 1]
     l4 = ip + ihl
+    hl = ((b[l4 + 12] >> 4) * 4) if proto == 6 else 8
+    b_end = end
     ck = l4 + (16 if proto == 6 else 6)
     if how == "field":
         b[ck + rng.randrange(2)] ^= 1 << rng.randrange(8)
     elif how == "payload":
-        pos = rng.randrange(l4 + (20 if proto == 6 else 8), len(b))
+        pos = rng.randrange(l4 + hl, b_end)
         b[pos] ^= 1 << rng.randrange(8)
     elif how == "zero":             # checksum field 0x0000: "no checksum" for UDP over IPv4 (not bad), a wrong checksum everywhere else
         b[ck:ck + 2] = b"\x00\x00"
     elif how == "swapwords":       # exchanging two 16-bit words leaves a correct checksum correct: NOT bad
-        p0 = l4 + (20 if proto == 6 else 8)
-        if len(b) - p0 >= 4:
+        p0 = l4 + hl
+        if b_end - p0 >= 4:
             b[p0:p0 + 2], b[p0 + 2:p0 + 4] = b[p0 + 2:p0 + 4], b[p0:p0 + 2]
     return bytes(b)
 
@@ -190,6 +201,18 @@ def corrupt(frame, how, rng):
 def _one(job):
     seed, l4, ipv = job
     rng = random.Random(seed)
+    from wire import l2l4 as _l
+    _l.VARIATION.clear()
+    _l.VARIATION.update(rng.choice([{}, {}, {"tcp_opts": 1}, {"ip6_ext": 1}, {"ip4_opts": 1}, {"eth_pad": 1}, {"tcp_opts": 1, "ip6_ext": 1, "ip4_opts": 1}]))
+    var = dict(_l.VARIATION)
+    try:
+        return _one2(job, rng, var)
+    finally:
+        _l.VARIATION.clear()
+
+
+def _one2(job, rng, var):
+    seed, l4, ipv = job
     try:
         if l4 == "tcp":
             frames, keylog = tcp_frames(seed, ipv, steer=[None, None, 0x0000, 0xFFFF, 0xFFFE, 0x0001, 0x8000])
@@ -219,7 +242,7 @@ def _one(job):
         for i, e in enumerate(ev):
             if bool(e["csum_ok"]) != verdict[i]:
                 ck = pk[i][14 + (20 if pk[i][14] >> 4 == 4 else 40) + (16 if l4 == "tcp" else 6):][:2].hex()
-                bad.append(f"packet {i} ({l4}/IPv{ipv}, checksum field {ck}, {len(pk[i])} bytes): verdict {'ok' if e['csum_ok'] else 'bad'}, RFC 1071 says {'ok' if verdict[i] else 'bad'}")
+                bad.append(f"packet {i} ({l4}/IPv{ipv}, lower-layer variation {var}, checksum field {ck}, {len(pk[i])} bytes): verdict {'ok' if e['csum_ok'] else 'bad'}, RFC 1071 says {'ok' if verdict[i] else 'bad'}")
                 break
     cks = [pk[i][14 + (20 if pk[i][14] >> 4 == 4 else 40) + (16 if l4 == "tcp" else 6):][:2].hex() for i in range(len(pk))]
     return dict(seed=seed, l4=l4, ipv=ipv, bad=bad, nbad=verdict.count(False), n=len(pk), events=len(ev), cks=cks)
